@@ -273,7 +273,26 @@ Section Exec.
     | None => match new with [] => None | e :: _ => Some e end
     end.
 
-  (** Executor.Execute up to scheduler.Run. *)
+  (** Executor.Execute up to scheduler.Run: one unit per included top-level selection, with the root
+      object as its only source; the first failing selection (in Flatten order) returns. *)
+  Definition init_sel (o : object) (root : value) (acc : res (list wunit * list string)) (it : item)
+    : res (list wunit * list string) :=
+    match acc with
+    | Bad e => Bad e
+    | Ok (us, tops) =>
+        match should_include Q (s_dirs (fst it)) with
+        | Bad e => Bad e
+        | Ok false => Ok (us, tops)
+        | Ok true =>
+            match find_field (s_name (fst it)) (o_fields o) with
+            | None => Bad err_invalid
+            | Some f =>
+                Ok (mk_unit f (fst it) (snd it) [(root, [PKey (s_alias (fst it))])] false (o_name o) :: us,
+                    s_alias (fst it) :: tops)
+            end
+        end
+    end.
+
   Definition init (q : selset) (root : value) : state + perr :=
     match flatten Q q with
     | Bad e => inr (nest [] e)
@@ -281,25 +300,7 @@ Section Exec.
         match find_object (s_query S) (s_objects S) with
         | None => inr (nest [] err_invalid)
         | Some o =>
-            let step_sel (it : item) (acc : res (list wunit * list string)) : res (list wunit * list string) :=
-              match acc with
-              | Bad e => Bad e
-              | Ok (us, tops) =>
-                  match should_include Q (s_dirs (fst it)) with
-                  | Bad e => Bad e
-                  | Ok false => Ok (us, tops)
-                  | Ok true =>
-                      match find_field (s_name (fst it)) (o_fields o) with
-                      | None => Bad err_invalid
-                      | Some f =>
-                          Ok (mk_unit f (fst it) (snd it) [(root, [PKey (s_alias (fst it))])] false (o_name o) :: us,
-                              s_alias (fst it) :: tops)
-                      end
-                  end
-              end in
-            (* the first failing selection in Flatten order returns; a fold from the right with the
-               error test first would report the last: walk from the left *)
-            match fold_left (fun acc it => step_sel it acc) sels (Ok ([], [])) with
+            match fold_left (init_sel o root) sels (Ok ([], [])) with
             | Bad e => inr (nest [] e)
             | Ok (us, tops) => inl (mk_state [] (rev us) None (rev tops))
             end
